@@ -53,8 +53,9 @@ class C08(Cfg):
                   "every data-bearing request kind is guarded by allowed_room.contains(room) with the database read inside the guarded branch on the guarded room, RoomList by key-proven-and-ready (decide on the regenerated table); the event handler admits a room only for a key that is a valid member at that moment (decide on the regenerated event rule); "
                   "before authentication the allowed table is empty and every request gets silence, a refusal or the identity proof; every data answer names a room of the allowed table and contains only rows of that room (row filters of node.rs/edge.rs/daily_log.rs modelled); "
                   "every allowed room was admitted for the proven key at a time t<=now at which the key was a valid member of the room according to the definition then in force. "
-                  "The full statement (member NOW when the answer is produced, for every interleaving of requests, definition changes and clock moves; revocation of the room at the request) is proved for ANY serving code whose regenerated description re-checks membership in front of every room-guarded request kind (C08_full_of, C08_every_answer_of) "
-                  "and is FALSE of the code as it is, which never re-checks: decide-checked witness for a former member on a live connection, replayed on the real code (known finding; repair proposed in findings/C08-former-member-still-served.patch, after which C08_full is a theorem about Defects.asImplemented and Gen.code); revoking only when the definition-change event arrives is shown insufficient (C08_revokeOnEvent_insufficient: an entry dated ahead of the clock); "
+                  "The full statement holds of the code as it is (C08_full, C08_every_answer for Defects.asImplemented and the regenerated Gen.code): a data answer is produced only for a room of which the proven key is a valid member NOW according to the definition held when the request is answered, for every interleaving of requests, definition changes (any definition, also entries dated ahead of the clock) and clock moves, and a room whose membership ended is removed from the allowed table by the next request that names it; "
+                  "the obligation that every room-guarded request kind is covered by the membership re-check is decided on the regenerated table (C08_code_rechecks: removing the re-check or leaving a kind out of it breaks the proof, and the oracle then reports former-member-still-served with a replay); "
+                  "the serving loop before the repair is kept as Defects.beforeFix with its decide-checked witness (C08_breaks_formerMemberServed, corpus/C08/former_member_live_connection.ops); revoking only when the definition-change event arrives is shown insufficient (C08_revokeOnEvent_insufficient: an entry dated ahead of the clock); "
                   "the second defect found (a disabled-only user admitted through has_user on a definition change) was fixed in /repo (81b6434) and is kept as a regression witness and corpus case. "
                   "Tie: the real InboundQueryService::start loop (process_inbound + add_allowed_room) and the real process_local_event fed with the instance's real RoomModified events, on a real database with 3-4 rooms, rows, references, deletions and logs, plus room-less rows (private rows, room-definition rows, the sys.Peer row) named in Nodes/Edges requests; "
                   "requester in 6 membership states x 7 positions relative to authentication / room list / definition changes x every request kind x own/foreign/mixed/unknown identifiers (exhaustive product) + membership changing between requests on live connections (disabled, re-enabled, admin and user-admin demoted, moved between authorisation groups, a second connection with another key) x every request kind + random sequences; every Answer decoded with bincode and compared with the model; independent oracle on the decoded answers.")
